@@ -217,7 +217,7 @@ class Flow:
 class TaskClass:
     def __init__(self, name, params, place, flows, prio=None, features=()):
         self.name = name; self.params = params; self.place = E(place); self.flows = flows
-        self.prio = None if prio is None else E(prio); self.features = set(features); self.cid = None
+        self.prio = None if prio is None else E(prio); self.features = set(features); self.cid = None; self.body_extra = ''
 
     @property
     def pnames(self): return [p.name for p in self.params if p.kind != 'derived']
@@ -254,7 +254,7 @@ class Program:
     def __init__(self, name, nk=64):
         self.name = name; self.classes = []; self.globals = []   # [(name, value)]
         self.nk = nk; self.features = set(); self.notes = []
-        self.ro_keys = set(); self.next_key = 0
+        self.ro_keys = set(); self.next_key = 0; self.options = []
 
     def add_global(self, name, value):
         self.globals.append((name, int(value))); return V(name)
@@ -278,6 +278,7 @@ class Program:
         rd = (lambda fl, i: 'vf_e1_read_reg(%s, vr, %d, 0)' % (fl, i)) if getattr(self, 'typed', False) else (lambda fl, i: 'vf_e1_read(%s, vr, %d)' % (fl, i))
         L = []
         L.append('extern "C" %{\n#include "parsec.h"\n#include "e1_rt.h"\n%}\n')
+        for o in self.options: L.append(o)
         L.append('D  [ type="parsec_data_collection_t*" ]')
         for n, v in self.globals:
             L.append('%s [ type="int" ]' % n)
@@ -324,6 +325,7 @@ class Program:
                     L.append('    vr->out[%d] = vr->in[%d];' % (i, i))
             if body_extra: L.append(body_extra)
             L.append('    vf_e1_exit(vr);')
+            if tc.body_extra: L.append(tc.body_extra)
             L.append('}\nEND\n')
         return '\n'.join(L)
 
